@@ -1,7 +1,7 @@
 (* Entry point of the extracted runner: [run fn arg].  The Python side finds function
    numbers by parsing the "(* FN name *)" comments below. *)
-From Coq Require Import ZArith List.
-From PyCraft Require Import Base.Res Base.Sx Model.VarInt Model.Versions Model.Position Model.SignedHex Model.Sha1 Model.Tables Model.FieldTypes Model.Nbt Model.Prog Model.CustomPackets Spec.ProtocolTable.
+From Coq Require Import ZArith List Bool.
+From PyCraft Require Import Base.Res Base.Sx Model.VarInt Model.Versions Model.Position Model.SignedHex Model.Sha1 Model.Tables Model.FieldTypes Model.Nbt Model.Prog Model.CustomPackets Spec.ProtocolTable Model.Frame Model.Aes Model.Cfb8 Model.Rsa Model.Dispatch Model.ExcChain.
 Import ListNotations.
 Open Scope Z_scope.
 
@@ -88,6 +88,46 @@ Definition sx_defn (s : sx) : defn := map (fun t => (0, sx_ftype 12 t)) (sx_list
 Definition of_vrest (p : value * list Z) : sx := L [of_value 12 (fst p); of_zs (snd p)].
 Definition of_vsrest (p : list value * list Z) : sx := L [L (map (of_value 12) (fst p)); of_zs (snd p)].
 
+(* ---- framing: zlib is a table of (plain, compressed) pairs computed by the harness ---- *)
+Fixpoint zs_eqb (a b : list Z) : bool :=
+  match a, b with [], [] => true | x :: a', y :: b' => Z.eqb x y && zs_eqb a' b' | _, _ => false end.
+Fixpoint tbl_fwd (t : list (list Z * list Z)) (x : list Z) : list Z :=
+  match t with [] => x | (p, c) :: r => if zs_eqb p x then c else tbl_fwd r x end.
+Fixpoint tbl_bwd (t : list (list Z * list Z)) (y : list Z) : option (list Z) :=
+  match t with [] => None | (p, c) :: r => if zs_eqb c y then Some p else tbl_bwd r y end.
+Definition sx_tbl (s : sx) : list (list Z * list Z) := map (fun e => (sx_zs (sx_nth e 0), sx_zs (sx_nth e 1))) (sx_list s).
+Definition sx_thr (s : sx) : option Z := match sx_list s with [] => None | t :: _ => Some (sx_z t) end.
+Definition decide_mode (mode : Z) (t : Z) (p : list Z) : bool :=
+  match mode with 0 => (t <? Z.of_nat (length p)) && negb (t =? -1) | 1 => true | _ => false end.
+Definition sx_packets (s : sx) : list (Z * list Z) := map (fun e => (sx_z (sx_nth e 0), sx_zs (sx_nth e 1))) (sx_list s).
+Definition of_packets (l : list (Z * list Z)) : sx := L (map (fun p => L [I (fst p); of_zs (snd p)]) l).
+Definition of_stream (s : list (list Z)) : sx := L (map of_zs s).
+Definition sx_stream (s : sx) : list (list Z) := map sx_zs (sx_list s).
+
+(* ---- dispatch / exception chains ---- *)
+Definition rel_of (s : sx) (x y : Z) : bool :=        (* ((x (y1 y2 ...)) ...) *)
+  existsb (fun e => Z.eqb (sx_z (sx_nth e 0)) x && memZ y (sx_zs (sx_nth e 1))) (sx_list s).
+Definition sx_beh (s : sx) : beh := match s with I 0 => Return | I 1 => Ignore | L [I 2; I e] => Raise e | _ => Return end.
+(* behaviour per packet key: ((key beh) ...) default Return *)
+Definition beh_fn (s : sx) (p : packet) : beh :=
+  match find (fun e => Z.eqb (sx_z (sx_nth e 0)) (p_key p)) (sx_list s) with Some e => sx_beh (sx_nth e 1) | None => Return end.
+Definition sx_listener (s : sx) : listener := {| l_id := sx_z (sx_nth s 0); l_filter := sx_zs (sx_nth s 1); l_beh := beh_fn (sx_nth s 2) |}.
+Definition sx_packet (s : sx) : packet := {| p_key := sx_z (sx_nth s 0); p_cls := sx_z (sx_nth s 1) |}.
+Definition of_event (e : event) : sx := match e with Call l k => L [I 0; I l; I k] | Reaction k => L [I 1; I k] | Written k => L [I 2; I k] end.
+Definition of_outcome (o : outcome) : sx := match o with ODone => L [I 0] | OIgnored => L [I 1] | ORaised e => L [I 2; I e] end.
+Definition of_dispatch (r : list event * outcome) : sx := L [L (map of_event (fst r)); of_outcome (snd r)].
+Definition sx_hres (s : sx) : hres := match s with L [I 1; I e] => HRaise e | _ => HReturn end.
+Definition hres_fn (s : sx) (e : Z) : hres :=
+  match find (fun x => Z.eqb (sx_z (sx_nth x 0)) e) (sx_list s) with Some x => sx_hres (sx_nth x 1) | None => HReturn end.
+Definition sx_handler (s : sx) : handler :=
+  {| h_id := sx_z (sx_nth s 0); h_types := sx_zs (sx_nth s 1); h_beh := hres_fn (sx_nth s 2); h_reconnects := sx_bool (sx_nth s 3) |}.
+Definition sx_final (s : sx) : final :=
+  match sx_z (sx_nth s 0) with 0 => FNone | 1 => FFalse | _ => FFun (hres_fn (sx_nth s 1)) (sx_bool (sx_nth s 2)) end.
+Definition sx_hook (s : sx) : rhook := match s with I 1 => RConsumed | L [I 2; I e] => RRaises e | _ => RPass end.
+Definition of_call (c : call) : sx := match c with HCall h e r => L [I 0; I h; I e; of_bool r] | FinalCall e r => L [I 1; I e; of_bool r] end.
+Definition of_result (r : result) : sx :=
+  L [L (map of_call (r_log r)); of_opt I (r_recorded r); of_bool (r_caught r); of_opt I (r_reraised r); of_bool (r_disconnected r); of_bool (r_consumed r)].
+
 Definition run (fn : Z) (a : sx) : sx :=
   match fn with
   | 1 => (* FN varint_read : (maxb bytes) *)
@@ -149,5 +189,31 @@ Definition run (fn : Z) (a : sx) : sx :=
       L [of_bool (spec_exists p v); I (spec_table p); I (spec_id p v); L (map of_ftype (spec_layout p v))]
   | 51 => (* FN spec_releases : () *)
       L [of_zs spec_releases; of_zs core_packets]
+  | 60 => (* FN write_all : (table thr mode packets) *)
+      of_res of_zs (write_all (tbl_fwd (sx_tbl (sx_nth a 0))) (decide_mode (sx_z (sx_nth a 2))) (sx_thr (sx_nth a 1)) (sx_packets (sx_nth a 3)))
+  | 61 => (* FN read_n : (table comp n stream) -> packets, remaining stream *)
+      of_res (fun r => L [of_packets (fst r); of_stream (snd r)])
+             (read_n (tbl_bwd (sx_tbl (sx_nth a 0))) (sx_bool (sx_nth a 1)) (Z.to_nat (sx_z (sx_nth a 2))) (sx_stream (sx_nth a 3)))
+  | 62 => (* FN read_until_error : (table comp fuel stream) -> packets, how it ended *)
+      let r := read_until_error (tbl_bwd (sx_tbl (sx_nth a 0))) (Z.to_nat (sx_z (sx_nth a 2))) (sx_bool (sx_nth a 1)) (sx_stream (sx_nth a 3)) in
+      L [of_packets (fst r); of_res (fun _ => I 0) (snd r)]
+  | 63 => (* FN mc_encrypt : (secret chunks) *)
+      of_stream (mc_encrypt (sx_zs (sx_nth a 0)) (sx_stream (sx_nth a 1)))
+  | 64 => (* FN mc_decrypt : (secret chunks) *)
+      of_stream (mc_decrypt (sx_zs (sx_nth a 0)) (sx_stream (sx_nth a 1)))
+  | 65 => (* FN aes128 : (key block) *)
+      of_zs (aes128 (sx_zs (sx_nth a 0)) (sx_zs (sx_nth a 1)))
+  | 66 => (* FN pkcs1_unpad : (em) *)
+      of_opt of_zs (pkcs1_unpad (sx_zs (sx_nth a 0)))
+  | 67 => (* FN pkcs1_pad : (ps m) *)
+      of_zs (pkcs1_pad (sx_zs (sx_nth a 0)) (sx_zs (sx_nth a 1)))
+  | 70 => (* FN react_all : (subclass early late reaction packets) *)
+      of_dispatch (react_all (rel_of (sx_nth a 0)) (map sx_listener (sx_list (sx_nth a 1))) (map sx_listener (sx_list (sx_nth a 2)))
+                             (beh_fn (sx_nth a 3)) (map sx_packet (sx_list (sx_nth a 4))))
+  | 71 => (* FN write_out : (subclass early_out late_out write_beh packet) *)
+      of_dispatch (write_out (rel_of (sx_nth a 0)) (map sx_listener (sx_list (sx_nth a 1))) (map sx_listener (sx_list (sx_nth a 2)))
+                             (beh_fn (sx_nth a 3)) (sx_packet (sx_nth a 4)))
+  | 72 => (* FN handle_exception : (isinst hook handlers final exc) *)
+      of_result (handle_exception (rel_of (sx_nth a 0)) (sx_hook (sx_nth a 1)) (map sx_handler (sx_list (sx_nth a 2))) (sx_final (sx_nth a 3)) (sx_z (sx_nth a 4)))
   | _ => L [I 99]
   end.
